@@ -1,19 +1,27 @@
 #!/usr/bin/env python3
 """Prints the seeded-change table (DESIGN.md Appendix B) from seeded/*/meta.json."""
-import json, os, glob
+import json, glob, re
 rows = []
 for d in sorted(glob.glob("/verif/seeded/*/")):
     m = json.load(open(d + "meta.json"))
-    sid = m["id"]
-    what = " ".join(m.get("needs_to_manifest", [])[:3])
+    notes = open(d + "notes.md").read()
+    # first meaningful line of the notes
+    line = ""
+    for l in notes.splitlines():
+        l = l.strip().lstrip("#").strip()
+        if len(l) > 25 and not l.lower().startswith(("notes", "mutation", "change", "m1", "m2")):
+            line = l
+            break
+    line = re.sub(r"\s+", " ", line).replace("|", "\\|")[:170]
+    wave = "1" if "-m" in m["id"] else ("2" if "-w2" in m["id"] else "3")
     r1 = m.get("round1", {}).get("detected_by")
-    if r1 is None and "round1" not in m:
-        r1 = None
-    det = m.get("detected_by", [])
-    own = m["breaks_property"] in det
-    rows.append((sid, m["breaks_property"], det, own, m.get("repo_head_when_run"), m.get("verif_head_when_run"), m.get("round1", {}), m.get("note", "")))
-print("| seeded change | breaks | caught by (quick tier, final framework) | own check | first round (before strengthening) |")
-print("|---|---|---|---|---|")
-for sid, prop, det, own, rh, vh, r1, note in rows:
-    first = ", ".join(r1.get("detected_by") or []) if r1 else ""
-    print(f"| {sid} | {prop} | {', '.join(det) or '**none**'} | {'yes' if own else 'no'} | {first} |")
+    final = m.get("detected_by", [])
+    first = r1 if r1 is not None else m.get("first_run_detected_by", final)
+    ported = "port" if "patch_original.diff" in " ".join(glob.glob(d + "*")) else ""
+    stale = "not re-runnable" if "has no faithful counterpart" in m.get("note", "") else ""
+    rows.append((m["id"], wave, m["breaks_property"], line, first, final, ported or stale))
+print("| id | wave | breaks | what (from the author's notes) | caught at first evaluation by | caught by (final framework) | |")
+print("|---|---|---|---|---|---|---|")
+for sid, wave, prop, line, first, final, flag in rows:
+    own = lambda l: ", ".join(("**%s**" % p) if p == prop else p for p in l) or "—"
+    print(f"| {sid} | {wave} | {prop} | {line} | {own(first)} | {own(final)} | {flag} |")
